@@ -91,7 +91,7 @@ func (s *Session) client(info services.ServiceInfo) (bus.Client, error) {
 	c, ok := s.poll[addr]
 	if ok {
 		vhook.Emit("session", s, "dup", "call", vhook.ID(&info), "addr", addr, "client", vhook.ID(c))
-		s.pollMutex.RUnlock()
+		s.pollMutex.Unlock()
 		endpoint.Close()
 		return c, nil
 	}
